@@ -18,7 +18,7 @@ from harness import common, tlc
 common.setup_repo_path()
 
 LAWS = ['GetAfterSet', 'SelfEndIsThePath', 'Frame', 'FrameMissingStaysMissing', 'SetCurrentIsIdentity', 'SkipIsIdentity',
-        'SelfReplaces', 'LeavesReadBack', 'ApplyMapsLeaves']
+        'SelfReplaces', 'LeavesReadBack', 'ApplyMapsLeaves', 'ResetRestores']
 
 
 AB = dict(KeyA='a', KeyB='b')
@@ -224,6 +224,25 @@ def _check_view(chk, data, want_leaves, want_applied, ctx, tag):
     if canon(back) != canon(v):
       chk.violation(f'{tag}:items-readback', f'{key!r} reads {back!r}, items() said {v!r}', ctx)
       return False
+  # multi-key reads are aligned with the keys: the listed paths, their bare single steps (a plain 'SELF' string is a dict key,
+  # Key.SELF is the whole tree - equal as strings, different keys), the whole tree, and a path asked for twice
+  multi = []
+  for key, _ in items:
+    multi.append(key)
+    if len(key) == 1 and not isinstance(key[0], tuple):
+      multi.append(key[0])
+  self_at = len(multi[:6])
+  multi = multi[:6] + [tree.Key.SELF] + multi[:2]
+  if len(multi) >= 2:
+    try:
+      got_multi = view[tuple(multi)]
+      single = tuple(view[k] for k in multi)
+    except Exception as e:  # pylint: disable=broad-exception-caught
+      chk.violation(f'{tag}:multi-key:exception:{type(e).__name__}', f'{e!r}: {multi!r} on {data!r}', ctx)
+      return False
+    if len(got_multi) != len(single) or any(canon(a) != canon(b) for a, b in zip(got_multi, single)) or canon(got_multi[self_at]) != canon(data):
+      chk.violation(f'{tag}:multi-key-read', f'view[{multi!r}] of {data!r} = {got_multi!r}, one key at a time {single!r}', ctx)
+      return False
   before = copy.deepcopy(data)
   try:
     applied = tree.TreeMapView(data, map_fn=leaf_fn).apply()
@@ -290,10 +309,57 @@ def _replay(chk, h, arrays, tag=None):
       return
     originals.append((new, copy.deepcopy(new)))
     data = new
+  _update_routes(chk, h, arrays, tag, ctx)
   # earlier versions are still what they were (later sets never leak into them)
   for obj, twin in originals:
     if canon(obj) != canon(twin):
       chk.violation(f'{tag}:mutation-of-earlier-version', f'{twin!r} became {obj!r} after later copy_and_set calls', ctx)
+      return
+
+
+def _update_routes(chk, h, arrays, tag, ctx):
+  """copy_and_update with a sequence of (key, value) pairs is that sequence of copy-and-set operations, in order - also when a key
+  occurs twice with a write below it in between; with a mapping (and `view | mapping`) it is the same for distinct keys."""
+  from ml_metrics._src.chainables import tree
+  steps = h['steps']
+  if not steps or steps[0]['result']['k'] == 'err':
+    return
+  cases = []
+  p1, v1 = steps[0]['p'], to_py(steps[0]['v'])
+  if all(e['t'] in ('key', 'idx') for e in p1) and isinstance(v1, (dict, list)):
+    # TreeView.tla's ResetRestores: set p1, write below p1, set p1 to the first value again - the tree after the first set
+    below = dict(t='key', s=unpk(next(iter(v1)))) if isinstance(v1, dict) and v1 else dict(t='idx', i=len(v1))
+    if not isinstance(v1, dict) or v1:
+      cases.append(('pairs:key-twice', [(to_key(p1), v1), (to_key(p1 + [below]), 7), (to_key(p1), copy.deepcopy(v1))], steps[0]['result']))
+      chk.coverage['update_key_twice_cases'] = chk.coverage.get('update_key_twice_cases', 0) + 1
+  if len(steps) >= 2 and all(st['result']['k'] != 'err' for st in steps):
+    pairs = [(to_key(st['p']), to_py(st['v'])) for st in steps]
+    cases.append(('pairs', pairs, steps[-1]['result']))
+    try:
+      if len({k for k, _ in pairs}) == len(pairs):
+        cases.append(('mapping', dict(pairs), steps[-1]['result']))
+    except TypeError:
+      pass
+  for name, other, want in cases:
+    data = to_py(h['tree0'], arrays)
+    before = copy.deepcopy(data)
+    uctx = dict(ctx, route=name)
+    try:
+      new = tree.TreeMapView(data).copy_and_update(other).data
+      alias = (tree.TreeMapView(data) | other).data if name == 'mapping' else new
+    except (KeyError, TypeError, ValueError, IndexError, AssertionError) as e:
+      if arrays:
+        continue      # arrays reject some sets (see _replay)
+      chk.violation(f'{tag}:update:{name}:rejected', f'copy_and_update({other!r}) on {data!r}: {e!r}; one set at a time succeeds', uctx)
+      return
+    except Exception as e:  # pylint: disable=broad-exception-caught
+      chk.violation(f'{tag}:update:{name}:exception:{type(e).__name__}', f'{e!r}: copy_and_update({other!r}) on {data!r}', uctx)
+      return
+    if canon(new) != canon(to_py(want)) or canon(alias) != canon(new):
+      chk.violation(f'{tag}:update:{name}', f'copy_and_update({other!r}) on {data!r}: got {new!r}, the sets one after the other give {to_py(want)!r}', uctx)
+      return
+    if canon(data) != canon(before):
+      chk.violation(f'{tag}:update:{name}:mutation', f'copy_and_update({other!r}) changed the viewed data {before!r} -> {data!r}', uctx)
       return
 
 
@@ -320,9 +386,35 @@ def value_kinds(chk):
         chk.violation('value-kinds:get-after-set', f'copy_and_set({key!r}, {val!r}) then read "score": {back!r}', ctx)
 
 
+def root_leaves(chk):
+  """TreeView.tla's Leaves / ApplyMapsLeaves for a tree that is a single leaf: it is listed once, under SELF, reads back and is
+  mapped by apply() - whatever its value, also a falsy one (nested falsy leaves are listed and mapped)."""
+  from ml_metrics._src.chainables import tree
+  for leaf in (5, 0, 0.0, False, '', 'x', b''):
+    ctx = dict(kind='treeview-root-leaf', leaf=repr(leaf))
+    try:
+      view = tree.TreeMapView(leaf)
+      keys = list(view.keys())
+      nested = list(tree.TreeMapView({'a': leaf}).keys())
+      applied = tree.TreeMapView(leaf, map_fn=lambda v: ('mapped', v)).apply()
+      nested_applied = tree.TreeMapView({'a': leaf}, map_fn=lambda v: ('mapped', v)).apply()
+    except Exception as e:  # pylint: disable=broad-exception-caught
+      chk.violation(f'root-leaf:exception:{type(e).__name__}', f'{leaf!r}: {e!r}', ctx)
+      continue
+    chk.replayed()
+    kind = 'falsy' if not leaf else 'truthy'
+    if len(nested) != 1 or nested_applied != {'a': ('mapped', leaf)}:
+      chk.violation(f'root-leaf:nested:{kind}', f'{{"a": {leaf!r}}}: keys {nested!r}, apply {nested_applied!r}', ctx)
+    elif len(keys) != 1 or view[keys[0]] != leaf or type(view[keys[0]]) is not type(leaf):
+      chk.violation(f'root-leaf:not-listed:{kind}', f'TreeMapView({leaf!r}).keys() = {keys!r}; a nested {leaf!r} is listed once', ctx)
+    elif applied != ('mapped', leaf):
+      chk.violation(f'root-leaf:not-mapped:{kind}', f'TreeMapView({leaf!r}, map_fn).apply() = {applied!r}; a nested {leaf!r} is mapped', ctx)
+
+
 def body(chk):
   b = _bounds(chk.tier)
   value_kinds(chk)
+  root_leaves(chk)
   chk.coverage['bounds'] = b
   for c in b['mc']:
     mc = tlc.run('pipeline', 'TreeView', tlc.cfg_text(constants=c, invariants=LAWS, view='View', deadlock=False),
